@@ -145,6 +145,7 @@ type FnVC struct {
 	frameAll bool
 	rangeIters map[ssa.Value]*rangeIter
 	witKeys map[string]bool
+	ptrCells map[*ssa.Alloc]*Addr
 	freeVars []*ssa.FreeVar
 	freshObjs []freshObj
 	axioms []string
@@ -399,7 +400,11 @@ func (vc *FnVC) typeFactsIn(st *State, v Val) string {
 			lo, hi := intRange(v.T)
 			return sAnd(sx("<=", lo, v.S), sx("<=", v.S, hi))
 		}
-	case *types.Pointer, *types.Map:
+	case *types.Pointer:
+		// interior pointers (embedded structs) are negative; their host object was allocated before
+		vc.sorts.declareFun("emb.host", "(Int) Int")
+		return sAnd(sx("<=", v.S, vc.cur(vc.allocKey())), sImp(sx("<", v.S, "0"), sx("<=", sx("emb.host", v.S), vc.cur(vc.allocKey()))))
+	case *types.Map:
 		return sAnd(sx("<=", "0", v.S), sx("<=", v.S, vc.cur(vc.allocKey())))
 	case *types.Slice:
 		return sAnd(sx("<=", "0", sx("sl.off", v.S)), sx("<=", "0", sx("sl.len", v.S)), sx("<=", sx("sl.len", v.S), sx("sl.cap", v.S)),
@@ -615,6 +620,10 @@ func (vc *FnVC) loadObj(st *State, ref string, stT types.Type) string {
 	dt := vc.sorts.sortOf(stT)
 	var fs []string
 	for i := 0; i < s.NumFields(); i++ {
+		if _, isStruct := s.Field(i).Type().Underlying().(*types.Struct); isStruct {
+			fs = append(fs, vc.loadObj(st, vc.embRef(stT, i, ref), s.Field(i).Type()))
+			continue
+		}
 		key, _, _ := vc.fieldKey(stT, i)
 		fs = append(fs, sSelect(vc.curIn(st, key), ref))
 	}
@@ -648,6 +657,10 @@ func (vc *FnVC) store(a *Addr, v string) {
 		s := a.stT.Underlying().(*types.Struct)
 		dt := vc.sorts.sortOf(a.stT)
 		for i := 0; i < s.NumFields(); i++ {
+			if _, isStruct := s.Field(i).Type().Underlying().(*types.Struct); isStruct {
+				vc.store(&Addr{kind: aObj, ref: vc.embRef(a.stT, i, a.ref), stT: s.Field(i).Type(), T: s.Field(i).Type()}, sx(dtAcc(dt, s.Field(i).Name()), v))
+				continue
+			}
 			key, _, _ := vc.fieldKey(a.stT, i)
 			vc.frameCheck(key, a.ref)
 			vc.set(key, sStore(vc.cur(key), a.ref, sx(dtAcc(dt, s.Field(i).Name()), v)))
@@ -683,6 +696,9 @@ func (vc *FnVC) store(a *Addr, v string) {
 		vc.set(a.key, sStore(vc.cur(a.key), a.ref, sStore(arr, a.idx, nv)))
 	case aGlobal:
 		vc.frameCheckGlobal(a.key)
+		if len(a.path) == 0 && vc.eng.specs.FieldInvs["global:"+strings.TrimPrefix(a.key, "G$")] != "" {
+			vc.assert("field-invariant", a.key+" stays non-nil", nonNilTerm(v, vc.sorts.sortOf(a.T)))
+		}
 		root := vc.cur(a.key)
 		vc.set(a.key, vc.updatePath(root, a.path, v))
 	}
@@ -694,6 +710,9 @@ func (vc *FnVC) frameCheck(key, ref string) {
 		return
 	}
 	allowed := []string{sx(">", ref, vc.entryAlloc)}
+	if strings.HasPrefix(key, "F$") && vc.sorts.extraSeen["emb.host"] {
+		allowed = append(allowed, sAnd(sx("<", ref, "0"), sx(">", sx("emb.host", ref), vc.entryAlloc)))
+	}
 	if strings.HasPrefix(key, "Mem$") {
 		allowed = append(allowed, sEq(ref, "0")) // the backing store of a nil slice: nothing to write
 	}
